@@ -88,8 +88,9 @@ func (h *baseHandler) Read(p []byte) (n int, err error) {
 }
 
 func (h *baseHandler) handleMessage(message string) {
-	if len(message) > 0 && message[0] == '.' {
-		h.handleHiddenMessage(message)
+	// Only a message the client knows as a control message is one. Anything else
+	// beginning with a dot is content (e.g. such a line of a file in plain mode).
+	if len(message) > 0 && message[0] == '.' && h.handleHiddenMessage(message) {
 		return
 	}
 
@@ -97,13 +98,15 @@ func (h *baseHandler) handleMessage(message string) {
 }
 
 // Handle messages received from server which are not meant to be displayed
-// to the end user.
-func (h *baseHandler) handleHiddenMessage(message string) {
+// to the end user. Returns false if it isn't such a message.
+func (h *baseHandler) handleHiddenMessage(message string) bool {
 	switch {
 	case strings.HasPrefix(message, ".syn close connection"):
 		go h.SendMessage(".ack close connection")
 		h.Shutdown()
+		return true
 	}
+	return false
 }
 
 func (h *baseHandler) Done() <-chan struct{} {
